@@ -266,6 +266,19 @@ def tunnel_py(p):
     return d
 
 
+def flow6_construct(nexthop, rules):
+    """(2, 133) through MpReachNLRI.construct; `rules` canonical: [[type, "text" | {"prefix": [fam, int], "len", "offset"}], ..]"""
+    from yabgp.message.attribute.mpreachnlri import MpReachNLRI
+    py = []
+    for rule in rules:
+        d = {}
+        for t, c in rule:
+            d[t] = c if isinstance(c, str) else {'prefix': '%s/%d' % (ip_text(c['prefix']), c['len']), 'offset': c['offset']}
+        py.append(d)
+    v = {'afi_safi': (2, 133), 'nexthop': ip_text(nexthop) if nexthop is not None else 'no-address', 'nlri': py}
+    return _cres(*with_budget(BUDGET, MpReachNLRI.construct, v))
+
+
 def extcomm_construct(items):
     from yabgp.message.attribute.extcommunity import ExtCommunity
     return _cres(*with_budget(BUDGET, ExtCommunity.construct, items))
